@@ -950,3 +950,8 @@ def _as_column(run, v):
 @specfn('as_row')
 def _as_row(run, v):
     return MatV(LC.row1(_seq(run, v, 'R').term))
+
+
+@specfn('rng_init_of')
+def _rng_init_of(run, seed):
+    return OpaqueV(T.rng_init(intterm(seed)), 'rngstate')
